@@ -733,6 +733,114 @@ func tokenAliasCheck(res *core.Result) core.Sub {
 	return sub
 }
 
+// entryAliasCheck: clients that logged in through the same user entry (named
+// role, raw permission array, wildcard user) hold independent permission
+// sets: moderating one never changes another's, nor what a later login gets.
+func entryAliasCheck(res *core.Result) core.Sub {
+	sub := core.Sub{Name: "same-entry-logins-after-moderation", Exhaustive: true}
+	var outc core.Outcomes
+	const desc = `{"users":{"alice":{"password":"pa","permissions":"op"},"raw":{"password":"p","permissions":["present","message"]},"role":{"password":"p","permissions":"present"}},"wildcard-user":{"password":"w","permissions":["message","present"]}}`
+	apply := func(perms map[string]bool, kind string) {
+		switch kind {
+		case "op":
+			perms["op"] = true
+		case "unop":
+			delete(perms, "op")
+			delete(perms, "record")
+		case "present":
+			perms["present"] = true
+		case "unpresent":
+			delete(perms, "present")
+		case "shutup":
+			delete(perms, "message")
+		case "unshutup":
+			perms["message"] = true
+		}
+	}
+	kinds := []string{"op", "unop", "present", "unpresent", "shutup", "unshutup"}
+	type act struct {
+		target int
+		kind   string
+	}
+	var seqs [][]act
+	for _, t1 := range []int{0, 2} {
+		for _, k1 := range kinds {
+			seqs = append(seqs, []act{{t1, k1}})
+			for _, t2 := range []int{0, 2} {
+				for _, k2 := range kinds {
+					seqs = append(seqs, []act{{t1, k1}, {t2, k2}})
+				}
+			}
+		}
+	}
+	for _, entry := range []struct{ user, pw string }{{"raw", "p"}, {"role", "p"}, {"anybody", "w"}} {
+		for _, seq := range seqs {
+			w := sig.NewWorld(map[string]string{"g": desc}, 4)
+			run := func(i int, m sig.Msg) string {
+				o := w.Send(i, m)
+				if o.Panic != "" {
+					return o.Panic
+				}
+				return w.Settle(nil)
+			}
+			pan := run(1, sig.Join("g", "alice", "pa"))
+			for _, i := range []int{0, 2} {
+				if pan == "" {
+					pan = run(i, sig.Join("g", entry.user, entry.pw))
+				}
+			}
+			ref := map[int]map[string]bool{0: {"present": true, "message": true}, 2: {"present": true, "message": true}}
+			for _, a := range seq {
+				if pan == "" {
+					pan = run(1, sig.Msg{"type": "useraction", "kind": a.kind, "source": "c1", "username": "alice", "dest": fmt.Sprintf("c%d", a.target)})
+					apply(ref[a.target], a.kind)
+				}
+			}
+			if pan == "" {
+				pan = run(3, sig.Join("g", entry.user, entry.pw))
+			}
+			sub.Executions++
+			if pan != "" {
+				res.Violate(core.Violation{Signature: "C11/panic/" + sig.PanicSite(pan) + "/entry-moderation", What: pan})
+				w.Close()
+				continue
+			}
+			ref[3] = map[string]bool{"present": true, "message": true}
+			for _, i := range []int{0, 2, 3} {
+				got := map[string]bool{}
+				for _, p := range w.Clients[i].V.Permissions() {
+					got[p] = true
+				}
+				outc.Add(fmt.Sprint(keys(got)))
+				if fmt.Sprint(keys(got)) != fmt.Sprint(keys(ref[i])) {
+					cls := "moderated-client"
+					if i == 3 {
+						cls = "later-login"
+					} else {
+						touched := false
+						for _, a := range seq {
+							if a.target == i {
+								touched = true
+							}
+						}
+						if !touched {
+							cls = "bystander"
+						}
+					}
+					res.Violate(core.Violation{Signature: "C11/same-entry-permissions-aliased/" + cls,
+						What: fmt.Sprintf("entry %q: after moderation %v, c%d holds %v; the reference (its own history only) says %v", entry.user, seq, i, keys(got), keys(ref[i])),
+						Replay: map[string]any{"sub": "entry-alias", "entry": entry.user, "seq": fmt.Sprint(seq)}})
+				}
+			}
+			w.Close()
+		}
+	}
+	sub.States, sub.Transitions, sub.Outcomes = sub.Executions, sub.Executions, outc.N()
+	sub.Bound = fmt.Sprintf("entries(3: raw array, role name, wildcard user with raw array) x moderation sequences of length <=2 over 2 targets x 6 kinds (%d)", len(seqs))
+	sub.Samples = []any{"entry raw [present message]: c0 and c2 join through it; alice: shutup c0, unpresent c2; c3 joins through it"}
+	return sub
+}
+
 func main() {
 	t0 := time.Now()
 	o := core.ParseFlags(80, 900)
@@ -765,6 +873,9 @@ func main() {
 	}
 	if o.Shard == 3%o.Shards && core.Want("token-login") {
 		res.AddSub(tokenAliasCheck(res))
+	}
+	if o.Shard == 4%o.Shards && core.Want("same-entry") {
+		res.AddSub(entryAliasCheck(res))
 	}
 	sig.Cleanup()
 	core.Finish(res, t0)
